@@ -11,6 +11,7 @@ def cfg : Cfg :=
     rule2Sep := Gen.C12.cmdlineRule2Sep
     rule2In := Gen.C12.cmdlineRule2In
     rule2Split := Gen.C12.cmdlineRule2Split
+    stripOne := Gen.C12.cmdlineStripsOneSep
     envNul := Gen.C12.environNul
     envEq := Gen.C12.environEq
     rlNul := Gen.C12.readlinkNul
